@@ -1,22 +1,49 @@
 import FimVerif.Drivers.StoreCodec
 open Lean FimVerif.Proto FimVerif.Store FimVerif.StoreCodec
 
-/-- requests: `["S", op…]` runs `Store.step` on the shared-store model, `["D", op…]` runs `DStore.step` on the
-    one-graph-per-id model; `[_, "snap"]` returns the whole store; `[_, "reset"]` starts a new history. -/
-def stepReq (st : Store × FimVerif.DStore.DStore) (j : Json) : (Store × FimVerif.DStore.DStore) × Json :=
+/-- requests: `["S", op…]` shared-store model, `["D", op…]` one-graph-per-id model, `["A", op…]` the reference
+    model (`AGraph.step` on the content of the addressed graph); `[_, "snap"]` / `["A", "content", g]` return
+    state; `[_, "reset"]` starts a new history. -/
+structure St where
+  s : Store
+  d : FimVerif.DStore.DStore
+  a : List (String × AGraph)
+
+def getA (st : St) (g : String) : AGraph := (FimVerif.AMap.get g st.a).getD AGraph.empty
+
+def otherOf : Op → String
+  | .findMatchingNodes _ o => o
+  | _ => ""
+
+def outWithGraphId (g : String) : Except Err Out → Except Err Out
+  | .ok (.nodeProps l p) => .ok (.nodeProps l (p ++ [("GraphID", .str g)]))
+  | r => r
+
+def contentToJson (A : AGraph) : Json :=
+  Json.mkObj [("nodes", .arr (A.nodes.map propsToJson).toArray),
+              ("edges", .arr (A.edges.map fun e => Json.arr #[optValToJson e.1, optValToJson e.2.1, propsToJson e.2.2]).toArray)]
+
+def stepReq (st : St) (j : Json) : St × Json :=
   match j with
-  | .arr #[.str "S", .str "snap"] => (st, ok (snapToJson st.1))
-  | .arr #[.str "S", .str "reset"] => ((init, st.2), ok .null)
-  | .arr #[.str "D", .str "snap"] => (st, ok (dsnapToJson st.2))
-  | .arr #[.str "D", .str "reset"] => ((st.1, FimVerif.DStore.init), ok .null)
+  | .arr #[.str "S", .str "snap"] => (st, ok (snapToJson st.s))
+  | .arr #[.str "S", .str "reset"] => ({ st with s := init }, ok .null)
+  | .arr #[.str "D", .str "snap"] => (st, ok (dsnapToJson st.d))
+  | .arr #[.str "D", .str "reset"] => ({ st with d := FimVerif.DStore.init }, ok .null)
+  | .arr #[.str "A", .str "reset"] => ({ st with a := [] }, ok .null)
+  | .arr #[.str "A", .str "content", .str g] => (st, ok (contentToJson (getA st g)))
   | .arr #[.str w, req] =>
     match opOfJson req with
     | some op =>
       if !op.WF then (st, err "bad-args")
-      else if w == "S" then let r := step op st.1; ((r.2, st.2), resToJson r.1)
-      else if w == "D" then let r := FimVerif.DStore.step op st.2; ((st.1, r.2), resToJson r.1)
+      else if w == "S" then let r := step op st.s; ({ st with s := r.2 }, resToJson r.1)
+      else if w == "D" then let r := FimVerif.DStore.step op st.d; ({ st with d := r.2 }, resToJson r.1)
+      else if w == "A" then
+        if !AGraph.covers op then (st, err "not-covered")
+        else
+          let r := AGraph.step op (getA st (otherOf op)) (getA st op.target)
+          ({ st with a := FimVerif.AMap.set op.target r.2 st.a }, resToJson (outWithGraphId op.target r.1))
       else (st, err "bad-request")
     | none => (st, err "bad-request")
   | _ => (st, err "bad-request")
 
-def main : IO Unit := runState (init, FimVerif.DStore.init) stepReq
+def main : IO Unit := runState ({ s := init, d := FimVerif.DStore.init, a := [] } : St) stepReq
